@@ -120,7 +120,7 @@ func RunC03(c *lib.Ctx) {
 		}
 		plans[i] = plan{cs, ds, ops, forks, r.Uint64()}
 	}
-	parallel(ncases, 10, func(pi int) {
+	parallel(ncases, workersN(), func(pi int) {
 		p := plans[pi]
 		if c.Only != "" && c.Only != p.cs.ID {
 			return
